@@ -62,9 +62,15 @@ func msgOf(v []string) [][]byte {
 
 type cell struct {
 	n, t, l int
+	ids     []uint16 // party identifiers if not 1..n
 }
 
-func (k cell) String() string { return fmt.Sprintf("n%dt%dL%d", k.n, k.t, k.l) }
+func (k cell) String() string {
+	if k.ids != nil {
+		return fmt.Sprintf("n%dt%dL%d-ids%v", k.n, k.t, k.l, k.ids)
+	}
+	return fmt.Sprintf("n%dt%dL%d", k.n, k.t, k.l)
+}
 
 // complete runs blind / sign / unblind / prove / verify for every vector and subset on shares.
 func complete(c *harness.C, what string, k cell, shares map[uint16][]byte, vecs [][]string, rp interface{}) bool {
@@ -180,6 +186,8 @@ func rotateIdx(n int) []int {
 func syncCase(k cell, thorough bool) harness.Case {
 	return harness.Case{ID: "sync/" + k.String(), Run: func(c *harness.C) {
 		c.Exec("[sync] " + k.String())
+		cryptolib.Parties = k.ids
+		defer func() { cryptolib.Parties = nil }()
 		reps := 1
 		if k.n >= 5 {
 			reps = 6 // fresh polynomials: the sums of n shares differ in size from run to run
@@ -250,7 +258,7 @@ func stackCase(pos, alt int, isRoot bool) harness.Case {
 		id = fmt.Sprintf("stack/n3t2L1/task/%d:%d", pos, alt)
 	}
 	return harness.Case{ID: id, Run: func(c *harness.C) {
-		k := cell{3, 2, 1}
+		k := cell{n: 3, t: 2, l: 1}
 		var shares map[uint16][]byte
 		var errs map[uint16]error
 		var trace []string
@@ -375,21 +383,24 @@ func gen(c *harness.C) []harness.Case {
 					if n == 4 && l > 4 {
 						continue
 					}
-					cells = append(cells, cell{n, t, l})
+					cells = append(cells, cell{n: n, t: t, l: l})
 				}
 			}
 		}
-		cells = append(cells, cell{5, 3, 1}, cell{5, 3, 2}, cell{6, 4, 1}, cell{7, 4, 1}, cell{8, 2, 1}, cell{8, 5, 1}, cell{9, 5, 1})
-		cells = append(cells, cell{7, 7, 1}, cell{8, 7, 1}, cell{8, 8, 1}, cell{9, 9, 1}, cell{10, 10, 1}, cell{10, 8, 2})
+		cells = append(cells, cell{n: 5, t: 3, l: 1}, cell{n: 5, t: 3, l: 2}, cell{n: 6, t: 4, l: 1}, cell{n: 7, t: 4, l: 1}, cell{n: 8, t: 2, l: 1}, cell{n: 8, t: 5, l: 1}, cell{n: 9, t: 5, l: 1})
+		cells = append(cells, cell{n: 7, t: 7, l: 1}, cell{n: 8, t: 7, l: 1}, cell{n: 8, t: 8, l: 1}, cell{n: 9, t: 9, l: 1}, cell{n: 10, t: 10, l: 1}, cell{n: 10, t: 8, l: 2})
+		cells = append(cells, cell{n: 3, t: 2, l: 1, ids: []uint16{1, 2, 4}}, cell{n: 3, t: 2, l: 2, ids: []uint16{2, 5, 9}}, cell{n: 4, t: 3, l: 1, ids: []uint16{10, 20, 30, 40}}, cell{n: 3, t: 3, l: 1, ids: []uint16{0, 256, 65535}}, cell{n: 5, t: 3, l: 1, ids: []uint16{3, 1000, 1001, 40000, 65535}})
 	} else {
 		for _, nt := range [][2]int{{2, 2}, {3, 2}, {3, 3}} {
 			for l := 1; l <= 3; l++ {
-				cells = append(cells, cell{nt[0], nt[1], l})
+				cells = append(cells, cell{n: nt[0], t: nt[1], l: l})
 			}
 		}
-		cells = append(cells, cell{4, 3, 1}, cell{5, 3, 1}, cell{6, 4, 1}, cell{8, 2, 1}, cell{8, 5, 1})
+		cells = append(cells, cell{n: 4, t: 3, l: 1}, cell{n: 5, t: 3, l: 1}, cell{n: 6, t: 4, l: 1}, cell{n: 8, t: 2, l: 1}, cell{n: 8, t: 5, l: 1})
+		// party identifiers that are not their positions
+		cells = append(cells, cell{n: 3, t: 2, l: 1, ids: []uint16{1, 2, 4}}, cell{n: 3, t: 2, l: 2, ids: []uint16{2, 5, 9}}, cell{n: 4, t: 3, l: 1, ids: []uint16{10, 20, 30, 40}}, cell{n: 3, t: 3, l: 1, ids: []uint16{0, 256, 65535}})
 		// high thresholds: sums of many share terms (representation limits of unreduced scalars)
-		cells = append(cells, cell{7, 7, 1}, cell{8, 7, 1}, cell{8, 8, 1}, cell{9, 9, 1})
+		cells = append(cells, cell{n: 7, t: 7, l: 1}, cell{n: 8, t: 7, l: 1}, cell{n: 8, t: 8, l: 1}, cell{n: 9, t: 9, l: 1})
 	}
 	var cases []harness.Case
 	for _, k := range cells {
@@ -400,18 +411,18 @@ func gen(c *harness.C) []harness.Case {
 	acells := []struct {
 		k cell
 		d int
-	}{{cell{3, 2, 1}, 2}, {cell{3, 3, 2}, 1}}
+	}{{cell{n: 3, t: 2, l: 1}, 2}, {cell{n: 3, t: 3, l: 2}, 1}}
 	if c.Thorough() {
 		acells = append(acells, struct {
 			k cell
 			d int
-		}{cell{4, 3, 1}, 2}, struct {
+		}{cell{n: 4, t: 3, l: 1}, 2}, struct {
 			k cell
 			d int
-		}{cell{3, 3, 2}, 2}, struct {
+		}{cell{n: 3, t: 3, l: 2}, 2}, struct {
 			k cell
 			d int
-		}{cell{4, 2, 1}, 1})
+		}{cell{n: 4, t: 2, l: 1}, 1})
 	}
 	for _, a := range acells {
 		for sh := 0; sh < ashards; sh++ {
